@@ -1,4 +1,9 @@
 #define HV_EIGEN_ASSERT_THROWS
+// the library's own assert(sp.isCompressed()) would abort the harness before it can report the input: the harness checks
+// compressed-ness and structure itself, so C asserts are compiled out (Eigen's index checks stay on, as exceptions)
+#ifndef NDEBUG
+#define NDEBUG
+#endif
 // C19 numeric harness on the real library: for random host sizes / block offsets / stratified tangent vectors,
 // every sparse routine must leave in its block exactly the dense values, leave every other stored entry
 // untouched (sentinels), never change the structure arrays and keep the matrix compressed.
@@ -56,9 +61,10 @@ Snapshot snap(const SpMat & m)
 
 // host with the pattern shifted to the block positions plus random extra entries holding sentinels
 template<bool Hess>
-SpMat make_host(const SpMat & pat, int dof, int rows, int i0, Rng & r, std::vector<std::pair<int, int>> & blockpos)
+SpMat make_host(const SpMat & pat, int dof, int rows, int i0, Rng & r, std::vector<std::pair<int, int>> & blockpos, int xcols = 0)
 {
-  const int cols = Hess ? rows * rows : rows;
+  // Hessian hosts: block (i0+j) of width `rows` starts at column rows*(i0+j); the host may be wider than rows*rows
+  const int cols = Hess ? rows * rows + xcols : rows;
   SpMat h(rows, cols);
   std::vector<Eigen::Triplet<double>> t;
   for (int k = 0; k < pat.outerSize(); ++k)
@@ -87,7 +93,8 @@ void one(const char * gname, const char * fname, const SpMat & pat, FS fs, FD fd
   const int rows = dof + rng.below(6);
   const int i0   = rng.below(rows - dof + 1);
   std::vector<std::pair<int, int>> bp;
-  SpMat h = make_host<Hess>(pat, dof, rows, i0, rng, bp);
+  const int xcols = (Hess && rng.below(2)) ? 1 + rng.below(2 * rows) : 0;
+  SpMat h = make_host<Hess>(pat, dof, rows, i0, rng, bp, xcols);
   Snapshot before = snap(h);
   fs(h, a, i0);
   Snapshot after = snap(h);
@@ -99,7 +106,7 @@ void one(const char * gname, const char * fname, const SpMat & pat, FS fs, FD fd
     std::ostringstream os;
     os.precision(17);
     os << "{\"group\":\"" << gname << "\",\"fn\":\"" << fname << "\",\"check\":\"" << what << "\",\"err\":" << err
-       << ",\"rows\":" << rows << ",\"i0\":" << i0 << ",\"a\":" << jvec(a) << "}";
+       << ",\"rows\":" << rows << ",\"xcols\":" << xcols << ",\"i0\":" << i0 << ",\"a\":" << jvec(a) << "}";
     REP->fail(os.str(), key + "." + what, err);
   };
   if (!after.compressed) failrec("compressed", 1);
